@@ -6,7 +6,7 @@ VERIF = os.path.dirname(os.path.dirname(os.path.abspath(__file__)))
 REPO = os.environ.get('VERIF_REPO', '/repo')
 WORK = os.path.join(os.environ.get('VERIF_WORK', os.path.join(VERIF, '.work')), 'c36')
 SCRIPT = os.path.join(REPO, 'htmlreport', 'cppcheck-htmlreport')
-WANT = {'html_escape_table', 'html_unescape_table', 'html_escape', 'CppCheckHandler'}
+WANT = {'html_escape_table', 'html_unescape_table', 'html_escape', 'CppCheckHandler', 'main:group', 'main:page'}
 
 LEMMAS = r'''
 # ------------------------------------------------------------------ lemmas (contracts checked by CrossHair)
@@ -67,6 +67,38 @@ def lemma_location(file1: str, line1: int, file2: str, line2: int, two: bool) ->
     return (len(h.errors) == 1 and e['file'] == file1 and e['line'] == line1 and len(locs) == (2 if two else 1) and
             locs[0]['file'] == file1 and locs[0]['line'] == line1 and (not two or (locs[1]['file'] == file2 and locs[1]['line'] == line2)))
 
+def lemma_pages(same2: bool, g: int, l1: int, l2: int, gl: int, has_info: bool) -> bool:
+    """
+    pre: 0 <= g <= 2 and 0 <= l1 <= 99999 and 0 <= l2 <= 99999 and 0 <= gl <= 99999
+    post: __return__
+    """
+    # file names: what matters is which of the three names coincide -- all five equality patterns are enumerated by (same2, g)
+    f1 = 'a.c'
+    f2 = 'a.c' if same2 else 'b.h'
+    g1 = 'a.c' if g == 0 else ('b.h' if g == 1 else 'c.c')
+    # finding A: primary location (f1,l1), secondary location (f2,l2); finding B: single location (g1,gl) -- as CppCheckHandler builds them
+    A = {'file': f1, 'line': l1, 'id': 'a', 'severity': 'error', 'msg': 'ma', 'verbose': 'va', 'classification': '', 'guideline': '',
+         'locations': [{'file': f1, 'line': l1, 'info': None}, {'file': f2, 'line': l2, 'info': ('note' if has_info else None)}]}
+    B = {'file': g1, 'line': gl, 'id': 'b', 'severity': 'style', 'msg': 'mb', 'verbose': 'vb', 'classification': '', 'guideline': '',
+         'locations': [{'file': g1, 'line': gl, 'info': None}]}
+    files = slice_group([A, B], False, '')
+    # every finding is grouped under its primary file, exactly once
+    if len(files) != (1 if f1 == g1 else 2) or files[f1]['errors'][0] is not A or files[g1]['errors'][-1] is not B:
+        return False
+    if len(files[f1]['errors']) + (0 if f1 == g1 else len(files[g1]['errors'])) != 2:
+        return False
+    # a page shows a finding's locations IN THAT FILE, each at its own line
+    shown = slice_page(f1, files[f1])
+    got = [(e['id'], e['line']) for e in shown]
+    want = [('a', l1)] + ([('a', l2)] if f2 == f1 else []) + ([('b', gl)] if g1 == f1 else [])
+    if got != want:
+        return False
+    if g1 != f1:
+        shown2 = slice_page(g1, files[g1])
+        if [(e['id'], e['line']) for e in shown2] != [('b', gl)]:
+            return False
+    return True
+
 def witness_location(file1: str, line1: int) -> bool:
     """
     pre: len(file1) <= %(M)d and 0 <= line1 <= 99999
@@ -95,6 +127,23 @@ def extract():
         if names & WANT:
             out.append(ast.get_source_segment(src, node))
             found |= names & WANT
+    # verbatim loops of main(): grouping of findings per file, and the per-page selection of a finding's locations
+    import textwrap
+    mainfn = [n for n in tree.body if isinstance(n, ast.FunctionDef) and n.name == 'main']
+    group = page = None
+    if mainfn:
+        for n in ast.walk(mainfn[0]):
+            if isinstance(n, ast.For) and isinstance(n.target, ast.Name) and n.target.id == 'error':
+                it = ast.get_source_segment(src, n.iter)
+                if it == 'contentHandler.errors' and group is None and 'files[filename]' in ast.get_source_segment(src, n):
+                    group = textwrap.dedent('    ' * 0 + ast.get_source_segment(src, n, padded=True))
+                if it == "data['errors']" and page is None and 'newError' in ast.get_source_segment(src, n):
+                    page = textwrap.dedent(ast.get_source_segment(src, n, padded=True))
+    if group and page:
+        found |= {'main:group', 'main:page'}
+        out.append('def slice_group(errors_list, is_remote, source_dir):\n    class _CH: pass\n    contentHandler = _CH()\n    contentHandler.errors = errors_list\n    files = {}\n    file_no = 0\n'
+                   + textwrap.indent(group, '    ') + '\n    return files')
+        out.append('def slice_page(filename, data):\n    errors = []\n' + textwrap.indent(page, '    ') + '\n    return errors')
     return '\n\n'.join(out), found
 
 
@@ -142,7 +191,7 @@ def run(tier, seed, only=None, replay=None):
     nviol = 0
     traces = 0
     os.makedirs(os.path.join(VERIF, 'replays'), exist_ok=True)
-    for fn in ['lemma_escape', 'witness_escape', 'lemma_error', 'lemma_location', 'witness_location']:
+    for fn in ['lemma_escape', 'witness_escape', 'lemma_error', 'lemma_location', 'lemma_pages', 'witness_location']:
         msgs = res.get(fn, [])
         r = {'obligation': fn, 'bound': 'len(text) <= %d' % N if 'escape' in fn else 'attribute strings <= %d chars, line 0..99999' % M, 'messages': [m for _, m in msgs][:3]}
         confirmed = any(k == 'info' and 'Confirmed over all paths' in m for k, m in msgs)
@@ -183,7 +232,7 @@ def run(tier, seed, only=None, replay=None):
                 traces += 1
     write_ev(ev_path, tier, seed, results, iters, choices, time.time() - t0, nviol, '', traces)
     nh = sum(1 for r in results if r['verdict'] == 'HOLDS')
-    print('[C36] %d lemmas: %d confirmed over all paths, %d violations; %.0fs' % (3, nh, nviol, time.time() - t0))
+    print('[C36] %d lemmas: %d confirmed over all paths, %d violations; %.0fs' % (4, nh, nviol, time.time() - t0))
     return code
 
 
